@@ -5,66 +5,77 @@ From PB Require Import Base.PBytes Known.FieldMaskModel Known.FieldMaskP.
 Import ListNotations.
 
 (* ------------------------------------------------------------------ numValidPaths / IsValid / Append / New *)
-Fixpoint join_dots (segs : list (list byte)) : list byte :=
+Fixpoint join_on (sep : byte) (segs : list (list byte)) : list byte :=
   match segs with
   | [] => []
-  | s :: rest => match rest with [] => s | _ :: _ => s ++ dot :: join_dots rest end
+  | s :: rest => match rest with [] => s | _ :: _ => s ++ sep :: join_on sep rest end
   end.
-Definition nodot (s : list byte) : Prop := ~ In dot s.
+Definition join_dots := join_on dot.
+Definition nosep (sep : byte) (s : list byte) : Prop := ~ In sep s.
+Definition nodot := nosep dot.
 
-Lemma split_nonnil p : split_dots p <> [].
+Lemma split_on_nonnil sep p : split_on sep p <> [].
 Proof.
-  destruct p as [|c t]; cbn [split_dots]; [discriminate|].
-  destruct (beq c dot); [discriminate|]. destruct (split_dots t); discriminate.
+  destruct p as [|c t]; cbn [split_on]; [discriminate|].
+  destruct (beq c sep); [discriminate|]. destruct (split_on sep t); discriminate.
 Qed.
 
-Lemma join_cons s rest : rest <> [] -> join_dots (s :: rest) = s ++ dot :: join_dots rest.
+Lemma join_on_cons sep s rest : rest <> [] -> join_on sep (s :: rest) = s ++ sep :: join_on sep rest.
 Proof. destruct rest; [congruence | reflexivity]. Qed.
 
-Lemma join_split p : join_dots (split_dots p) = p.
+Lemma join_split_on sep p : join_on sep (split_on sep p) = p.
 Proof.
-  induction p as [|c t IH]; cbn [split_dots]; [reflexivity|].
-  destruct (beq c dot) eqn:E.
-  - apply beq_true in E; subst c. rewrite join_cons by apply split_nonnil. now rewrite IH.
-  - pose proof (split_nonnil t). destruct (split_dots t) as [|h r] eqn:S; [congruence|].
+  induction p as [|c t IH]; cbn [split_on]; [reflexivity|].
+  destruct (beq c sep) eqn:E.
+  - apply beq_true in E; subst c. rewrite join_on_cons by apply split_on_nonnil. now rewrite IH.
+  - pose proof (split_on_nonnil sep t). destruct (split_on sep t) as [|h r] eqn:S; [congruence|].
     destruct r as [|h2 r2].
-    + cbn [join_dots] in *. now rewrite IH.
-    + rewrite join_cons in * by discriminate. cbn [app]. now rewrite IH.
+    + cbn [join_on] in *. now rewrite IH.
+    + rewrite join_on_cons in * by discriminate. cbn [app]. now rewrite IH.
 Qed.
 
-Lemma split_nodot p : Forall nodot (split_dots p).
+Lemma split_on_nosep sep p : Forall (nosep sep) (split_on sep p).
 Proof.
-  induction p as [|c t IH]; cbn [split_dots].
+  induction p as [|c t IH]; cbn [split_on].
   - constructor; [intros []|constructor].
-  - destruct (beq c dot) eqn:E.
+  - destruct (beq c sep) eqn:E.
     + constructor; [intros []|exact IH].
-    + pose proof (split_nonnil t). destruct (split_dots t) as [|h r]; [congruence|].
+    + pose proof (split_on_nonnil sep t). destruct (split_on sep t) as [|h r]; [congruence|].
       inversion IH; subst. constructor; [|assumption].
       intros [->|Hin]; [now rewrite beq_refl in E | contradiction].
 Qed.
 
-Lemma split_nodot_seg s : nodot s -> split_dots s = [s].
+Lemma split_on_nosep_seg sep s : nosep sep s -> split_on sep s = [s].
 Proof.
-  induction s as [|c t IH]; intros H; cbn [split_dots]; [reflexivity|].
-  destruct (beq c dot) eqn:E; [apply beq_true in E; subst; exfalso; apply H; now left|].
+  induction s as [|c t IH]; intros H; cbn [split_on]; [reflexivity|].
+  destruct (beq c sep) eqn:E; [apply beq_true in E; subst; exfalso; apply H; now left|].
   rewrite IH; [reflexivity|]. intros Hin. apply H. now right.
 Qed.
 
-Lemma split_app_dot s rest : nodot s -> split_dots (s ++ dot :: rest) = s :: split_dots rest.
+Lemma split_on_app_sep sep s rest : nosep sep s -> split_on sep (s ++ sep :: rest) = s :: split_on sep rest.
 Proof.
-  induction s as [|c t IH]; intros H; cbn [split_dots app].
+  induction s as [|c t IH]; intros H; cbn [split_on app].
   - now rewrite beq_refl.
-  - destruct (beq c dot) eqn:E; [apply beq_true in E; subst; exfalso; apply H; now left|].
+  - destruct (beq c sep) eqn:E; [apply beq_true in E; subst; exfalso; apply H; now left|].
     rewrite IH; [reflexivity|]. intros Hin. apply H. now right.
 Qed.
 
-Lemma split_join segs : segs <> [] -> Forall nodot segs -> split_dots (join_dots segs) = segs.
+Lemma split_join_on sep segs : segs <> [] -> Forall (nosep sep) segs -> split_on sep (join_on sep segs) = segs.
 Proof.
   induction segs as [|s rest IH]; [congruence|]. intros _ H. inversion H; subst.
-  cbn [join_dots]. destruct rest as [|s' rest'].
-  - now apply split_nodot_seg.
-  - rewrite split_app_dot by assumption. f_equal. apply IH; [discriminate | assumption].
+  cbn [join_on]. destruct rest as [|s' rest'].
+  - now apply split_on_nosep_seg.
+  - rewrite split_on_app_sep by assumption. f_equal. apply IH; [discriminate | assumption].
 Qed.
+
+Lemma split_nonnil p : split_dots p <> [].
+Proof. apply split_on_nonnil. Qed.
+Lemma join_split p : join_dots (split_dots p) = p.
+Proof. apply join_split_on. Qed.
+Lemma split_nodot p : Forall nodot (split_dots p).
+Proof. apply split_on_nosep. Qed.
+Lemma split_join segs : segs <> [] -> Forall nodot segs -> split_dots (join_dots segs) = segs.
+Proof. apply split_join_on. Qed.
 
 (* segment [seg] names field [fd] of message [md]: by its field name, except that a
    group-kind field is named by its message name (and only when the field name is
